@@ -10,6 +10,6 @@ for f in sorted(glob.glob(os.path.join(V, "seeded", "*", "meta.json"))):
         if r["detected"]:
             det.append("%s%s (%s)" % (r["check"], "" if r["tier"] == "quick" else " thorough", (r["violation_keys"] or ["?"])[0][:60]))
     files = ", ".join(os.path.basename(x) for x in m.get("files", []))[:60]
-    rows.append("| %s | %s | %s | %s |" % (m["id"], files, (m.get("summary") or "")[:150].replace("|", "/"), "; ".join(det) if det else "**not detected** (%s)" % m.get("note", "see text")))
+    rows.append("| %s | %s | %s | %s |" % (m["id"], files, (m.get("summary") or "")[:120].replace("|", "/"), "; ".join(det) if det else "**not detected** (%s)" % m.get("note", "see text")))
 print("| id | file | seeded change | detected by (first violation key) |\n|---|---|---|---|")
 print("\n".join(rows))
